@@ -20,6 +20,7 @@ package snap
 
 import (
 	"bytes"
+	"encoding/binary"
 	"encoding/json"
 	"flag"
 	"fmt"
@@ -27,6 +28,7 @@ import (
 	"sort"
 	"strconv"
 	"strings"
+	"sync"
 	"sync/atomic"
 	"testing"
 	"time"
@@ -35,6 +37,7 @@ import (
 	"github.com/ethereum/go-ethereum/core/rawdb"
 	"github.com/ethereum/go-ethereum/core/types"
 	"github.com/ethereum/go-ethereum/core/types/bal"
+	"github.com/ethereum/go-ethereum/crypto"
 	"github.com/ethereum/go-ethereum/ethdb"
 	"github.com/ethereum/go-ethereum/ethdb/memorydb"
 	"github.com/ethereum/go-ethereum/rlp"
@@ -121,6 +124,12 @@ func (w *c47pWorld) randBalance() *big.Int {
 	}
 }
 
+// delegation is an EIP-7702 delegation designator (0xef0100 || address), the code of a
+// delegated EOA; the only code that a later block can replace or clear.
+func (w *c47pWorld) delegation() []byte {
+	return append([]byte{0xef, 0x01, 0x00}, w.randBytes(20)...)
+}
+
 func (w *c47pWorld) newRawSlot() common.Hash {
 	w.slotSeq++
 	if w.r.intn(4) == 0 {
@@ -196,11 +205,59 @@ func (w *c47pWorld) newAddr() (common.Address, common.Hash) {
 	}
 }
 
-func (w *c47pWorld) addAcc(nonce uint64, balance *big.Int, code []byte, slots int) *c47pAcc {
+// c47pGround is a raw slot key whose hash starts with at least 10 zero bits. A contract
+// holding a run of such slots (any contract can: the slot keys are the caller's choice)
+// has a dense start of its storage trie; a byte-capped first reply that ends inside the
+// run makes the syncer extrapolate a huge trie and split the contract into 2..16
+// storage chunks (estimateRemainingSlots >= 2*maxRequestSize/64), which the uniformly
+// spread slots of a small state practically never achieve.
+type c47pGround struct{ raw, hash common.Hash }
+
+var (
+	c47pPoolOnce sync.Once
+	c47pPool     []c47pGround // ascending by hash
+)
+
+func c47pGroundPool() []c47pGround {
+	c47pPoolOnce.Do(func() {
+		var raw common.Hash
+		raw[26] = 1 // 2^40 + i: apart from the sequential raw keys of newRawSlot
+		for i := uint32(0); i < 1<<19; i++ {
+			binary.BigEndian.PutUint32(raw[28:], i)
+			if h := crypto.Keccak256Hash(raw[:]); h[0] == 0 && h[1]&0xc0 == 0 {
+				c47pPool = append(c47pPool, c47pGround{raw, h})
+			}
+		}
+		sort.Slice(c47pPool, func(i, j int) bool { return bytes.Compare(c47pPool[i].hash[:], c47pPool[j].hash[:]) < 0 })
+	})
+	return c47pPool
+}
+
+// c47pCluster: n slots of the contract have hashes with `bits` leading zero bits (0 = none).
+type c47pCluster struct{ n, bits int }
+
+func (w *c47pWorld) addAcc(nonce uint64, balance *big.Int, code []byte, slots int, cl ...c47pCluster) *c47pAcc {
 	addr, h := w.newAddr()
 	a := &c47pAcc{addr: addr, hash: h, nonce: nonce, balance: balance, code: code, raws: map[common.Hash]common.Hash{}, alive: true}
 	if slots > 0 {
 		m := map[common.Hash][]byte{}
+		if len(cl) > 0 && cl[0].n > 0 {
+			pool := c47pGroundPool()
+			var bound common.Hash // first hash with fewer leading zero bits
+			bound[cl[0].bits/8] = 0x80 >> uint(cl[0].bits%8)
+			avail := sort.Search(len(pool), func(i int) bool { return bytes.Compare(pool[i].hash[:], bound[:]) >= 0 })
+			for tries := 0; tries < 4*cl[0].n && len(m) < cl[0].n && len(m) < avail; tries++ {
+				g := pool[w.r.intn(avail)]
+				if c47pKeccak(g.raw[:]) != g.hash {
+					panic("VERIF-HARNESS-BUG: ground slot pool: hash mismatch between geth's keccak and the reference")
+				}
+				if _, dup := m[g.hash]; !dup {
+					m[g.hash] = refrlp.EncodeString(w.randVal())
+					a.raws[g.hash] = g.raw
+				}
+			}
+			slots += len(m)
+		}
 		for len(m) < slots {
 			raw := w.newRawSlot()
 			sh := c47pKeccak(raw[:])
@@ -368,7 +425,7 @@ const (
 
 // storage writes are what the fetched / not-yet-fetched partition is about: more of them
 var c47pOpWeights = []int{opBalance, opBalance, opTxSend, opTxSend, opSstore, opSstore, opSstore, opSstore, opWipe, opNewEOA,
-	opNewContract, opNewContract, opDrain, opSetCode, opRead, opEphemeral}
+	opNewContract, opNewContract, opDrain, opSetCode, opSetCode, opSetCode, opRead, opEphemeral}
 
 var c47pOpNames = []string{"balance", "txsend", "sstore", "wipe", "neweoa", "newcontract", "drain", "setcode", "read", "ephemeral"}
 
@@ -378,6 +435,7 @@ type c47pBlock struct {
 	raw     []byte // honest access list
 	evil    []byte // well-formed, different content
 	changed []common.Hash
+	cleared []common.Hash // accounts whose code went from non-empty to empty in this block
 	desc    string
 }
 
@@ -426,11 +484,12 @@ func (w *c47pWorld) balanceChanges(final *big.Int) []c47pChange {
 
 // genBlock applies the drawn operations to the model and returns the access list that
 // describes exactly those changes.
-func (w *c47pWorld) genBlock(kinds []int) ([]*c47pBalAcc, []common.Hash, string) {
+func (w *c47pWorld) genBlock(kinds []int) ([]*c47pBalAcc, []common.Hash, []common.Hash, string) {
 	var (
 		used    = map[common.Hash]bool{}
 		entries []*c47pBalAcc
 		changed []common.Hash
+		cleared []common.Hash
 		desc    []string
 	)
 	entry := func(addr common.Address) *c47pBalAcc {
@@ -599,20 +658,42 @@ func (w *c47pWorld) genBlock(kinds []int) ([]*c47pBalAcc, []common.Hash, string)
 			entry(a.addr).bals = w.balanceChanges(a.balance)
 			changed = append(changed, a.hash)
 		case opSetCode:
-			a := w.pick(used, func(a *c47pAcc) bool { return a.st == nil && (len(a.code) == 0 || len(a.code) == 23) })
+			var a *c47pAcc
+			if w.r.intn(3) > 0 { // mostly an account that is delegated already
+				a = w.pick(used, func(a *c47pAcc) bool { return a.st == nil && len(a.code) == 23 })
+			}
+			if a == nil {
+				a = w.pick(used, func(a *c47pAcc) bool { return a.st == nil && (len(a.code) == 0 || len(a.code) == 23) })
+			}
 			if a == nil {
 				continue
 			}
+			// one code change per authorization (each bumps the nonce); the last one is the
+			// block state. A delegation reset is a code change to the EMPTY code.
 			e := entry(a.addr)
-			idx := w.idxs(1)[0]
-			if len(a.code) == 23 && w.r.intn(2) == 0 {
-				a.code = nil
-			} else {
-				a.code = append([]byte{0xef, 0x01, 0x00}, w.randBytes(20)...)
+			had := len(a.code) == 23
+			var seq [][]byte
+			switch m := w.r.intn(10); {
+			case had && m < 5:
+				seq = [][]byte{nil} // delegation reset
+			case had && m < 7:
+				seq = [][]byte{w.delegation(), nil} // re-delegated, then reset
+			case had && m < 8:
+				seq = [][]byte{nil, w.delegation()} // reset, then delegated again
+			case !had && m < 2:
+				seq = [][]byte{w.delegation(), nil} // delegated and reset within the block
+			default:
+				seq = [][]byte{w.delegation()}
 			}
-			a.nonce++
-			e.codes = []c47pChange{{idx: idx, val: a.code}}
-			e.nonces = []c47pChange{{idx: idx, val: new(big.Int).SetUint64(a.nonce).Bytes()}}
+			for i, idx := range w.idxs(len(seq)) {
+				a.nonce++
+				e.codes = append(e.codes, c47pChange{idx: idx, val: seq[i]})
+				e.nonces = append(e.nonces, c47pChange{idx: idx, val: new(big.Int).SetUint64(a.nonce).Bytes()})
+			}
+			a.code = seq[len(seq)-1]
+			if had && len(a.code) == 0 {
+				cleared = append(cleared, a.hash)
+			}
 			changed = append(changed, a.hash)
 		case opRead:
 			if a := w.pick(used, func(*c47pAcc) bool { return true }); a != nil && w.r.intn(3) > 0 {
@@ -640,7 +721,7 @@ func (w *c47pWorld) genBlock(kinds []int) ([]*c47pBalAcc, []common.Hash, string)
 	for _, h := range changed {
 		w.recordAcc(w.byHash[h])
 	}
-	return entries, changed, strings.Join(desc, "+")
+	return entries, changed, cleared, strings.Join(desc, "+")
 }
 
 // ---------------------------------------------------------------------------
@@ -664,7 +745,9 @@ type c47pShape struct {
 	nEOA0    int // addressable: never sent a transaction (drainable)
 	nEOA     int
 	nCode    int   // contracts without storage
+	nDeleg   int   // EOAs with an EIP-7702 delegation designator as code
 	stSizes  []int // contracts with storage
+	clusters []c47pCluster // per contract with storage: dense run of slots at the start of the hash space
 	gaps     []int // blocks between successive pivots
 	window   uint64
 	skeleton bool
@@ -677,6 +760,7 @@ func c47pDrawShape(rt *rapid.T) c47pShape {
 		nEOA0:    rapid.IntRange(0, 6).Draw(rt, "nEOA0"),
 		nEOA:     rapid.IntRange(1, 12).Draw(rt, "nEOA"),
 		nCode:    rapid.IntRange(0, 4).Draw(rt, "nCodeOnly"),
+		nDeleg:   rapid.IntRange(0, 5).Draw(rt, "nDelegated"),
 		window:   rapid.SampledFrom([]uint64{1, 2, 3, catchUpWindow}).Draw(rt, "catchUpWindow"),
 		skeleton: rapid.Bool().Draw(rt, "gapHeadersInSkeleton"),
 	}
@@ -705,6 +789,11 @@ func c47pDrawShape(rt *rapid.T) c47pShape {
 		default:
 			sh.stSizes = append(sh.stSizes, rapid.IntRange(150, maxBig).Draw(rt, fmt.Sprintf("st%d/big", i)))
 		}
+		var cl c47pCluster
+		if sh.stSizes[i] >= 2 && rapid.Bool().Draw(rt, fmt.Sprintf("st%d/cluster", i)) {
+			cl = c47pCluster{n: rapid.IntRange(8, 40).Draw(rt, fmt.Sprintf("st%d/clusterSlots", i)), bits: rapid.IntRange(10, 14).Draw(rt, fmt.Sprintf("st%d/clusterBits", i))}
+		}
+		sh.clusters = append(sh.clusters, cl)
 	}
 	nPiv := rapid.IntRange(1, 3).Draw(rt, "laterPivots")
 	for i := 0; i < nPiv; i++ {
@@ -744,8 +833,11 @@ func c47pBuildChain(rt *rapid.T, sh c47pShape) (*c47pChain, error) {
 	for i := 0; i < sh.nCode; i++ {
 		w.addAcc(1, new(big.Int).SetUint64(w.r.next()%3), w.codePool[w.r.intn(len(w.codePool))], 0)
 	}
-	for _, n := range sh.stSizes {
-		w.addAcc(1, new(big.Int).SetUint64(w.r.next()%1000), w.codePool[w.r.intn(len(w.codePool))], n)
+	for i := 0; i < sh.nDeleg; i++ {
+		w.addAcc(1+w.r.next()%50, w.randBalance(), w.delegation(), 0)
+	}
+	for i, n := range sh.stSizes {
+		w.addAcc(1, new(big.Int).SetUint64(w.r.next()%1000), w.codePool[w.r.intn(len(w.codePool))], n, sh.clusters[i])
 	}
 	for _, a := range w.addrs {
 		w.recordAcc(a)
@@ -769,7 +861,7 @@ func c47pBuildChain(rt *rapid.T, sh c47pShape) (*c47pChain, error) {
 			for o := 0; o < nOps; o++ {
 				kinds = append(kinds, rapid.SampledFrom(c47pOpWeights).Draw(rt, fmt.Sprintf("blk%d/op%d", idx, o)))
 			}
-			entries, changed, desc := w.genBlock(kinds)
+			entries, changed, cleared, desc := w.genBlock(kinds)
 			raw := c47pEncodeBAL(entries)
 			root := c47pKeccak([]byte(fmt.Sprintf("no state served for block %d", idx)))
 			if g == gap-1 {
@@ -784,7 +876,7 @@ func c47pBuildChain(rt *rapid.T, sh c47pShape) (*c47pChain, error) {
 				ch.skelton[idx] = true
 			}
 			hd := c47pHeader(ch.base+uint64(idx), ch.blocks[idx-1].hash, root, c47pKeccak(raw))
-			ch.blocks = append(ch.blocks, &c47pBlock{header: hd, hash: hd.Hash(), raw: raw, evil: c47pEvil(entries, w.r), changed: changed,
+			ch.blocks = append(ch.blocks, &c47pBlock{header: hd, hash: hd.Hash(), raw: raw, evil: c47pEvil(entries, w.r), changed: changed, cleared: cleared,
 				desc: fmt.Sprintf("#%d(p%d):%s", idx, p+1, desc)})
 			ch.ops = append(ch.ops, kinds)
 			// self-check: the access list is well-formed for geth's decoder, canonical and valid
@@ -1233,6 +1325,8 @@ var (
 type c47pStep struct {
 	cancelAt    int64 // served requests
 	cancelAccts int64 // flat account writes
+	cancelChunk int64 // accepted replies to chunked storage requests (whichever comes first)
+	cancelHold  bool  // or when a slow peer sits on an early storage chunk while later ones progressed
 	move        bool
 	fresh       bool
 	last        bool // no cancel point
@@ -1248,6 +1342,30 @@ func c47pJournal(db ethdb.KeyValueReader) *syncProgressV2 {
 		return nil
 	}
 	return &p
+}
+
+// c47pChunkState inspects the suspended large-contract retrievals of a journal: multi =
+// a contract split into at least two storage chunks is suspended; later = an open chunk
+// is followed by downloaded slots of the same contract (a later chunk has a downloaded
+// prefix or is complete), i.e. the journal describes fetched storage behind a hole.
+func c47pChunkState(p *syncProgressV2) (multi, later bool) {
+	for _, task := range p.Tasks {
+		for _, subs := range task.SubTasks {
+			for i, sub := range subs {
+				if sub.Last != common.MaxHash || i > 0 {
+					multi = true
+				}
+				if i+1 < len(subs) {
+					if subs[i+1].Next != incHash(sub.Last) {
+						later = true
+					}
+				} else if sub.Last != common.MaxHash {
+					later = true
+				}
+			}
+		}
+	}
+	return multi, later
 }
 
 func c47pFetched(p *syncProgressV2, h common.Hash) bool {
@@ -1313,6 +1431,13 @@ func TestVerifC47PivotV2(t *testing.T) {
 			default:
 				s.cancelAccts = int64(1 + len(chain.states[0].accts)*rapid.IntRange(10, hi).Draw(rt, fmt.Sprintf("step%d/cancelAcctPct", i))/100)
 			}
+			// additionally: in the middle of a large-contract retrieval, if there is one
+			switch rapid.IntRange(0, 3).Draw(rt, fmt.Sprintf("step%d/cancelInChunks", i)) {
+			case 0:
+				s.cancelChunk = int64(rapid.IntRange(1, 10).Draw(rt, fmt.Sprintf("step%d/cancelChunkReplies", i)))
+			case 1, 2:
+				s.cancelHold = true
+			}
 			plan = append(plan, s)
 		}
 		plan = append(plan, c47pStep{fresh: rapid.Bool().Draw(rt, "last/freshSyncer"), last: true}) // runs to completion
@@ -1350,6 +1475,7 @@ func TestVerifC47PivotV2(t *testing.T) {
 			moves    int
 			midCatch int
 			fetchedChanged, unfetchedChanged, fetchedSlotAccts int
+			fetchedCleared, multiChunk, laterChunk             int
 			changedAll                                         = map[common.Hash]bool{}
 		)
 		report := func(format string, a ...any) {
@@ -1394,7 +1520,7 @@ func TestVerifC47PivotV2(t *testing.T) {
 			regPeers = nil
 			sy.rates.OverrideTTLLimit = ttl
 			sy.catchUpWindow = sh.window
-			run := &c47Run{state: state, cancel: make(chan struct{}), cancelAt: step.cancelAt}
+			run := &c47Run{state: state, cancel: make(chan struct{}), cancelAt: step.cancelAt, cancelChunked: step.cancelChunk, holdCancel: step.cancelHold}
 			wdb.arm(step.cancelAccts, func() { run.cancelOnce.Do(func() { close(run.cancel) }) })
 			for i, pp := range sets[ci].peers {
 				p := c47pNewPeer(t, fmt.Sprintf("c%d-peer%d", ci, i), run, pp)
@@ -1402,7 +1528,7 @@ func TestVerifC47PivotV2(t *testing.T) {
 				p.remote = sy
 				regPeers = append(regPeers, p.id)
 			}
-			history = append(history, fmt.Sprintf("cycle %d: pivot #%d cancelAfter=%dreq/%dacc fresh=%v peers=%s", ci, chain.pivots[cur], step.cancelAt, step.cancelAccts, step.fresh, sets[ci].desc))
+			history = append(history, fmt.Sprintf("cycle %d: pivot #%d cancelAfter=%dreq/%dacc/%dchunk/hold=%v fresh=%v peers=%s", ci, chain.pivots[cur], step.cancelAt, step.cancelAccts, step.cancelChunk, step.cancelHold, step.fresh, sets[ci].desc))
 			syc := sy
 			out := c47Sync(func(cc chan struct{}) error { return syc.Sync(target, cc) }, func() string { return c47DumpSyncerV2(syc) }, run, base, c47pCycleBound)
 			total.served.Add(run.served.Load())
@@ -1440,6 +1566,17 @@ func TestVerifC47PivotV2(t *testing.T) {
 				midCatch++
 				history = append(history, fmt.Sprintf("cancelled inside catch-up at block #%d", chain.byHash[j.Pivot.Hash()]))
 			}
+			if j != nil {
+				// statistics: what does the next cycle resume from?
+				multi, later := c47pChunkState(j)
+				if multi {
+					multiChunk++
+				}
+				if later {
+					laterChunk++
+					history = append(history, "journal: open storage chunk before downloaded slots")
+				}
+			}
 			// the downloader moves the pivot only while it is not frozen
 			if frozen := sy.FrozenPivot(); frozen != nil {
 				if frozen.Hash() != target.Hash() {
@@ -1467,6 +1604,11 @@ func TestVerifC47PivotV2(t *testing.T) {
 								}
 							} else {
 								unfetchedChanged++
+							}
+						}
+						for _, h := range chain.blocks[bi].cleared {
+							if c47pFetched(j, h) {
+								fetchedCleared++
 							}
 						}
 					}
@@ -1512,6 +1654,9 @@ func TestVerifC47PivotV2(t *testing.T) {
 		c.Classf("pivot/access-list-tampered=%v", cnt.balTampered.Load() > 0)
 		c.Classf("pivot/access-list-refused=%v", cnt.balRefused.Load() > 0)
 		c.Classf("pivot/chunked-storage=%v", total.chunked.Load() > 0)
+		c.Classf("pivot/code-cleared-on-already-fetched-account=%v", fetchedCleared > 0)
+		c.Classf("pivot/resumed-with-multi-chunk-contract=%v", multiChunk > 0)
+		c.Classf("pivot/resumed-with-open-chunk-before-fetched-slots=%v", laterChunk > 0)
 		c.Classf("pivot/rejected>0=%v", total.rejected.Load() > 0)
 		if moves > 0 {
 			seen := map[int]bool{}
